@@ -3,9 +3,11 @@ package rules
 import (
 	"fmt"
 	"go/ast"
+	"go/parser"
 	"go/token"
 	"go/types"
 	"regexp"
+	"strconv"
 	"strings"
 
 	"golang.org/x/tools/go/packages"
@@ -707,6 +709,8 @@ func runC05(c *core.Ctx) {
 	ruleProxyBody(c, typeIface)
 	c.Doc("C05.name-space", "method, signal and property names of one interface are made unique within one set", 1)
 	ruleOneNameSpace(c, "C05.name-space")
+	c.Doc("C05.forward-loop", "the emitted subscription goroutine leaves its loop early only on a closed payload channel and on a decoding error", 1)
+	ruleForwardLoop(c, "C05.forward-loop")
 	c.Doc("C05.mode-flag", "a generator mode flag read by an emitter is lowered again before the declarations shared by both halves are rendered", 1)
 	ruleModeFlagScoped(c, "C05.mode-flag")
 	c.Doc("C05.proxy-resolve", "the generic proxy resolves a call by method name and parameter signature (overloads kept apart)", 2)
@@ -1327,4 +1331,218 @@ func ruleOneNameSpace(c *core.Ctx, rule string) {
 	}
 	c.Check(same, rule, "type/object.MetaObject.ForEachMethodAndSignal/one-set", fn.Pos(), fmt.Sprintf("%d calls of %s share one set of names", len(sets), helper.Name()),
 		"the names of methods, signals and properties are made unique in separate sets: a signal and a property (or a method) of the same name both get the Go name the generator derives from it (SubscribeX), and the generated package declares it twice")
+}
+
+// ruleForwardLoop: the goroutine the generator emits for a typed subscription
+// (`for { payload, ok := <-chPay … ch <- e }`) hands every payload it receives to
+// the decoder and the decoded event to the subscriber: the emitted loop body is
+// left early only where the payload channel is closed (`!ok`) and where decoding
+// failed (`err != nil`). Any other emitted exit — a `continue` for an empty
+// payload, a `break` on a flag — silently drops events that the emitting half
+// legitimately sends (a signal without parameters has an empty payload). The
+// emitted statements are read off the generator's syntax tree: jen calls are
+// rendered token by token, raw fragments given to jen.Id are parsed as Go.
+func ruleForwardLoop(c *core.Ctx, rule string) {
+	n := 0
+	allowed := map[string]bool{"!ok": true, "err != nil": true, "err!=nil": true}
+	for _, rel := range []string{"meta/idl", "meta/stub"} {
+		p := c.Pkg(rel)
+		if p == nil {
+			continue
+		}
+		isJen := func(id *ast.Ident) bool {
+			o := p.TypesInfo.Uses[id]
+			return o != nil && o.Pkg() != nil && strings.HasSuffix(o.Pkg().Path(), "jennifer/jen")
+		}
+		// chainHas reports whether the call chain under e contains a call of the jen method/function name
+		var chainHas func(e ast.Expr, name string) bool
+		chainHas = func(e ast.Expr, name string) bool {
+			call, ok := e.(*ast.CallExpr)
+			if !ok {
+				return false
+			}
+			sel, ok := call.Fun.(*ast.SelectorExpr)
+			if !ok {
+				return false
+			}
+			if sel.Sel.Name == name && isJen(sel.Sel) {
+				return true
+			}
+			return chainHas(sel.X, name)
+		}
+		// render a condition built with jen calls: Id("err").Op("!=").Nil() -> "err != nil"
+		var render func(e ast.Expr) string
+		render = func(e ast.Expr) string {
+			call, ok := e.(*ast.CallExpr)
+			if !ok {
+				return "?"
+			}
+			sel, ok := call.Fun.(*ast.SelectorExpr)
+			if !ok {
+				return "?"
+			}
+			prefix := ""
+			if _, isCall := sel.X.(*ast.CallExpr); isCall {
+				prefix = render(sel.X) + " "
+			}
+			tok := "?"
+			switch sel.Sel.Name {
+			case "Id", "Op":
+				if len(call.Args) == 1 {
+					if bl, ok := call.Args[0].(*ast.BasicLit); ok && bl.Kind == token.STRING {
+						tok, _ = strconv.Unquote(bl.Value)
+					}
+				}
+			case "Nil":
+				tok = "nil"
+			case "Err":
+				tok = "err"
+			case "Lit":
+				tok = "lit"
+			}
+			return prefix + tok
+		}
+		for _, f := range p.Syntax {
+			var encl *ast.FuncDecl
+			ast.Inspect(f, func(nd ast.Node) bool {
+				if fd, ok := nd.(*ast.FuncDecl); ok {
+					encl = fd
+				}
+				call, ok := nd.(*ast.CallExpr)
+				if !ok {
+					return true
+				}
+				sel, ok := call.Fun.(*ast.SelectorExpr)
+				if !ok || sel.Sel.Name != "Block" || !isJen(sel.Sel) {
+					return true
+				}
+				// For().Block(…): the receiver chain ends with For and nothing else (no condition)
+				rc, ok := sel.X.(*ast.CallExpr)
+				if !ok {
+					return true
+				}
+				rs, ok := rc.Fun.(*ast.SelectorExpr)
+				if !ok || rs.Sel.Name != "For" || !isJen(rs.Sel) || len(rc.Args) != 0 {
+					return true
+				}
+				n++
+				fname := "?"
+				if encl != nil {
+					fname = encl.Name.Name
+				}
+				key := fmt.Sprintf("%s.%s/emitted-loop#%d", rel, fname, n)
+				bad := ""
+				var badPos token.Pos
+				for i, a := range call.Args {
+					last := i == len(call.Args)-1
+					ac, ok := a.(*ast.CallExpr)
+					if !ok {
+						continue
+					}
+					// raw fragment: jen.Id(`…`)
+					if as, ok := ac.Fun.(*ast.SelectorExpr); ok && as.Sel.Name == "Id" && len(ac.Args) == 1 {
+						if bl, ok := ac.Args[0].(*ast.BasicLit); ok && bl.Kind == token.STRING {
+							txt, _ := strconv.Unquote(bl.Value)
+							if !strings.Contains(txt, "continue") && !strings.Contains(txt, "break") && !strings.Contains(txt, "return") && !strings.Contains(txt, "goto") {
+								continue
+							}
+							src := "package p\nfunc _() {\nfor {\n" + txt + "\n}\n}\n"
+							pf, err := parser.ParseFile(token.NewFileSet(), "fragment.go", src, 0)
+							if err != nil {
+								bad, badPos = "an emitted fragment of the loop that leaves it cannot be parsed on its own: "+err.Error(), a.Pos()
+								continue
+							}
+							var conds []string
+							var visit func(nd ast.Node, conds []string)
+							visit = func(nd ast.Node, conds []string) {
+								switch x := nd.(type) {
+								case *ast.IfStmt:
+									cs := append(append([]string{}, conds...), types.ExprString(x.Cond))
+									visit(x.Body, cs)
+									if x.Else != nil {
+										visit(x.Else, append(append([]string{}, conds...), "!("+types.ExprString(x.Cond)+")"))
+									}
+									return
+								case *ast.BranchStmt, *ast.ReturnStmt:
+									ok := false
+									for _, cd := range conds {
+										if allowed[cd] {
+											ok = true
+										}
+									}
+									if !ok && !(last && len(conds) == 0) {
+										what := "unconditionally"
+										if len(conds) > 0 {
+											what = "when " + strings.Join(conds, " && ")
+										}
+										bad, badPos = "the emitted loop is left early "+what, a.Pos()
+									}
+									return
+								case *ast.FuncLit:
+									return
+								}
+								ast.Inspect(nd, func(ch ast.Node) bool {
+									if ch == nd || ch == nil {
+										return true
+									}
+									switch ch.(type) {
+									case *ast.IfStmt, *ast.BranchStmt, *ast.ReturnStmt, *ast.FuncLit:
+										visit(ch, conds)
+										return false
+									}
+									return true
+								})
+							}
+							_ = conds
+							// the statements of the wrapped for body
+							fd := pf.Decls[0].(*ast.FuncDecl)
+							visit(fd.Body.List[0].(*ast.ForStmt).Body, nil)
+							continue
+						}
+					}
+					// jen.If(cond).Block(… jen.Continue() / Return() / Break() …)
+					if chainHas(a, "If") && (containsJenCall(a, isJen, "Continue") || containsJenCall(a, isJen, "Return") || containsJenCall(a, isJen, "Break")) {
+						cond := "?"
+						ast.Inspect(a, func(x ast.Node) bool {
+							if cc, ok := x.(*ast.CallExpr); ok {
+								if s, ok := cc.Fun.(*ast.SelectorExpr); ok && s.Sel.Name == "If" && isJen(s.Sel) && len(cc.Args) == 1 {
+									cond = render(cc.Args[0])
+								}
+							}
+							return true
+						})
+						if !allowed[cond] {
+							bad, badPos = "the emitted loop is left early when "+cond, a.Pos()
+						}
+						continue
+					}
+					if !last && (containsJenCall(a, isJen, "Continue") || containsJenCall(a, isJen, "Break")) && !chainHas(a, "If") {
+						bad, badPos = "the emitted loop is left early unconditionally", a.Pos()
+					}
+				}
+				if bad == "" {
+					c.Pass(rule, key, call.Pos(), "the emitted loop is left early only on a closed payload channel (!ok) and on a decoding error (err != nil)")
+				} else {
+					c.Fail(rule, key, badPos, bad+": payloads the emitting half legitimately sends (the empty payload of a signal without parameters) never reach the subscriber, which is told nothing")
+				}
+				return true
+			})
+		}
+	}
+	if n == 0 {
+		c.Undecided(rule, "emitted-loop", token.NoPos, "the generator no longer emits a forwarding loop with jen.For().Block(…): the shape of the subscription goroutine is not recognised")
+	}
+}
+
+func containsJenCall(e ast.Node, isJen func(*ast.Ident) bool, name string) bool {
+	found := false
+	ast.Inspect(e, func(x ast.Node) bool {
+		if cc, ok := x.(*ast.CallExpr); ok {
+			if s, ok := cc.Fun.(*ast.SelectorExpr); ok && s.Sel.Name == name && isJen(s.Sel) {
+				found = true
+			}
+		}
+		return !found
+	})
+	return found
 }
